@@ -206,7 +206,12 @@ func (bp *BaseParser) readBufferBegin(lr *Loader) {
 	if bp.totalEntries-bp.readEntries == 0 {
 		bp.key = r.ReadStringP()
 	} else {
+		// the key as it was read from the snapshot : the consumer of the previous part may
+		// rewrite its entry's Key field (replaceHashTag) while the next part is being parsed
 		bp.key = lr.lastEntry.Key
+		if lr.lastEntry.ObjectParser != nil && len(lr.lastEntry.ObjectParser.Key()) > 0 {
+			bp.key = lr.lastEntry.ObjectParser.Key()
+		}
 	}
 }
 
